@@ -28,7 +28,7 @@ static const size_t BIG = 60000;            // "large" = memory buffers (cache m
 struct Hdr { uint64_t magic; uint64_t size; uint32_t lib; uint32_t cls; void* base; uint64_t pad; };   // 40 -> padded to 48
 struct FreeNode { FreeNode* next; };
 struct Class { size_t size; size_t align; FreeNode* free_head; unsigned nfree; unsigned live; };
-struct Mapping { uint8_t* addr; size_t len; size_t live_len; int prot; bool huge; bool live; };
+struct Mapping { uint8_t* addr; size_t len; size_t live_len; int prot; bool huge; bool live; int owner; };
 
 struct State {
 	uint8_t* arena = nullptr; size_t bump = 0;
@@ -50,7 +50,9 @@ struct State {
 	Mapping maps[256]; unsigned nmaps = 0;
 	long live_blocks = 0; long live_bytes = 0; long live_map_bytes = 0;
 	long short_unmaps = 0; long bad_frees = 0;
-	long wx_events = 0; char wx_what[160] = { 0 };     // W+X observed on a library mapping
+	long wx_events = 0; char wx_what[160] = { 0 };     // W+X requested on a library mapping (any owner)
+	long wx_cache_events = 0;                           // ... on a mapping owned by a cache (owner 10..19)
+	int cur_owner = 0;                                  // set by the harness around creating calls: 10+i cache i, 20 VM
 	long rwx_allowed = 0;                               // set by the harness when RWX is legitimate (non-secure VM buffers)
 	char last_req[96] = { 0 }; char failed_req[96] = { 0 };   // description of the most recent / the first failed request
 };
@@ -121,7 +123,7 @@ inline size_t usable(void* p) { if (!p) return 0; Hdr* h = (Hdr*)((uint8_t*)p - 
 // ---- page mappings requested by the library ----
 inline void note_prot(Mapping& m, int prot, const char* how) {
 	State& s = S();
-	if ((prot & PROT_WRITE) && (prot & PROT_EXEC)) { ++s.wx_events; if (!s.wx_what[0]) snprintf(s.wx_what, sizeof s.wx_what, "%s requests PROT_WRITE|PROT_EXEC on a %zu-byte library mapping", how, m.len); }
+	if ((prot & PROT_WRITE) && (prot & PROT_EXEC)) { ++s.wx_events; if (m.owner >= 10 && m.owner < 20) ++s.wx_cache_events; if (!s.wx_what[0] || (m.owner >= 10 && m.owner < 20)) snprintf(s.wx_what, sizeof s.wx_what, "%s requests PROT_WRITE|PROT_EXEC on a %zu-byte code buffer owned by %s", how, m.len, m.owner >= 20 ? "the VM" : m.owner >= 10 ? "a cache" : "the library"); }
 	m.prot = prot;
 }
 inline void* map(void* addr, size_t len, int prot, int flags, int fd, off_t off) {
@@ -137,7 +139,7 @@ inline void* map(void* addr, size_t len, int prot, int flags, int fd, off_t off)
 	if (!at) { at = s.marena + s.mbump + 4096; s.mbump += plen + 8192; if (s.nmaps >= 256 || s.mbump > MARENA) { errno = ENOMEM; return MAP_FAILED; } slot = &s.maps[s.nmaps++]; }
 	void* r = (void*)syscall(SYS_mmap, at, plen, prot, (flags & ~(MAP_HUGETLB | MAP_POPULATE)) | MAP_FIXED, -1, 0);
 	if (r == MAP_FAILED) return r;
-	*slot = Mapping{ at, len, len, 0, huge, true }; note_prot(*slot, prot, "mmap");
+	*slot = Mapping{ at, len, len, 0, huge, true, s.cur_owner }; note_prot(*slot, prot, "mmap");
 	s.live_map_bytes += (long)len;
 	return r;
 }
